@@ -471,7 +471,7 @@ func pairCases(aKinds, bSeqs []string, recipes []eng.Recipe, withOpenVariant boo
 }
 
 func engRule(extra string) string {
-	return "case = one execution of 2..4 virtual processes (real Stack handles driven by scripts of Add / multi-table Addition / CompactAll / AutoCompact / Clean / Close / open / reads) on one real directory under the token-passing scheduler: pause sweeps (process A parked before each of its filesystem operations in turn while the others run), nested sweeps over triples, PCT/uniform random schedules, and - where the runner lists them - I/O-fault sweeps (each hooked filesystem operation of a call fails once with an injected error; reads of table files included), fault-inside-window sweeps, random schedules with one injected fault, slow-clock sweeps, late-clock sweeps (virtual clock decades after the files' time stamps), table-unlink fault sweeps; monitors run after every hooked filesystem operation. distinct = (initial stack, config, schedule signature = sequence of (process, call site)); non-trivial = API calls of two processes overlapped. " + extra
+	return "case = one execution of 2..4 virtual processes (real Stack handles driven by scripts of Add / multi-table Addition / CompactAll / AutoCompact / Clean / Close / open / reads) on one real directory under the token-passing scheduler: pause sweeps (process A parked before each of its filesystem operations in turn while the others run), nested sweeps over triples, PCT/uniform random schedules, and - where the runner lists them - I/O-fault sweeps (each hooked filesystem operation of a call fails once with an injected error; reads of table files included), fault-inside-window sweeps, random schedules with one injected fault, slow-clock sweeps, late-clock sweeps (virtual clock decades after the files' time stamps), coarse-mtime sweeps (all files carry equal time stamps), table-unlink fault sweeps; monitors run after every hooked filesystem operation. distinct = (initial stack, config, schedule signature = sequence of (process, call site)); non-trivial = API calls of two processes overlapped. " + extra
 }
 
 // RunC04: linearizable transactional store.
